@@ -5,4 +5,6 @@ Extraction "cursor_model.ml" CursorModel.tree_cursor CursorModel.tree_root Curso
   CursorModel.valid CursorModel.key CursorModel.has_next CursorModel.has_prev CursorModel.has_left
   CursorModel.has_right CursorModel.has_parent CursorModel.step CursorModel.cinorder
   CursorModel.cinorder_all CursorModel.observe CursorModel.run StreeModel.inorder StreeModel.get
-  CursorBig.big_new CursorBig.big_add CursorBig.big_remove CursorBig.big_root CursorBig.big_len base_types.
+  CursorBig.big_new CursorBig.big_add CursorBig.big_remove CursorBig.big_root CursorBig.big_len
+  CursorBig.big_replace CursorBig.big_clear CursorBig.big_clone CursorBig.big_min CursorBig.big_max
+  CursorBig.big_cursor_clone CursorBig.big_is_empty CursorBig.big_inorder CursorBig.big_inorder_after base_types.
